@@ -321,7 +321,15 @@ func c18Gen(t *rapid.T) c18Case {
 	if c.HookMs < 0 {
 		c.HookMs = 0
 	}
-	c.ErrType = rapid.SampledFrom([]string{"Runtime.HookBoom", "Function.Custom", "junk", "Function.junk 1", "Runtime.AA0", "", " Runtime.Ab", "Runtime.Ab\tx"}).Draw(t, "errType")
+	c.ErrType = rapid.OneOf(
+		rapid.SampledFrom([]string{"Runtime.HookBoom", "Function.Custom", "junk", "Function.junk 1", "Runtime.AA0", "", " Runtime.Ab", "Runtime.Ab\tx"}),
+		// a valid type with one character that is not a letter put into it (what a header can carry)
+		rapid.Custom(func(t *rapid.T) string {
+			base := rapid.SampledFrom([]string{"Runtime.HookFailed", "Function.OutOfMemory"}).Draw(t, "base")
+			ch := rapid.SampledFrom([]string{"_", "[", "]", "^", "`", "\\", "@", "{", "0", ".", "-", "/", ":", "é"}).Draw(t, "ch")
+			at := rapid.IntRange(len(base)-9, len(base)).Draw(t, "at")
+			return base[:at] + ch + base[at:]
+		})).Draw(t, "errType")
 	cred := rapid.StringMatching(`[A-Za-z0-9/+=]{8,40}`)
 	for i := 0; i < 3; i++ {
 		c.Creds = append(c.Creds, []string{cred.Draw(t, fmt.Sprintf("k%d", i)), cred.Draw(t, fmt.Sprintf("s%d", i)), cred.Draw(t, fmt.Sprintf("t%d", i))})
@@ -343,7 +351,9 @@ func c18Fixed() []c18Case {
 	}
 	out = append(out, c18Case{Rt: "restorenext", Hook: "ok", HookMs: 260, TimeoutMs: 100, Creds: cr},
 		c18Case{Rt: "next", Hook: "ok", TimeoutMs: 100, Creds: cr, Second: true, Gets: g},
-		c18Case{Rt: "restorenext", Hook: "rerr", HookMs: 10, TimeoutMs: 300, ErrType: "xRuntime.Ab junk", Creds: cr})
+		c18Case{Rt: "restorenext", Hook: "rerr", HookMs: 10, TimeoutMs: 300, ErrType: "xRuntime.Ab junk", Creds: cr},
+		c18Case{Rt: "restorenext", Hook: "rerr", HookMs: 10, TimeoutMs: 300, ErrType: "Runtime.Hook_Failed", Creds: cr},
+		c18Case{Rt: "restorenext", Hook: "initerr", HookMs: 10, TimeoutMs: 300, ErrType: "Function.Out[Of]Memory", Creds: cr})
 	return out
 }
 
